@@ -71,6 +71,20 @@ class SlotsError(Exception):
         self.payload = state['payload']
 
 
+class KeepsCauseError(Exception):
+    """own __reduce__ that carries __cause__ through pickling (as tblib-style pickling support does): after a hop the
+    exception arrives with a cause already set - the remote traceback must be attached all the same"""
+
+    def __reduce__(self):
+        return _rebuild_keeps_cause, (self.args, self.__cause__)
+
+
+def _rebuild_keeps_cause(args, cause):
+    e = KeepsCauseError(*args)
+    e.__cause__ = cause
+    return e
+
+
 def _rtext(rnd, n=12):
     alphabet = 'abcXYZ 019\n\t"\'\\%{}[]\u00e9\u4e2d\U0001f600:'
     return ''.join(rnd.choice(alphabet) for _ in range(rnd.randint(0, n)))
@@ -109,6 +123,8 @@ def _make(key, seed):
         return e
     if key in ('cause', 'context'):
         return LookupError(s1, n)
+    if key == 'keepcause':
+        return KeepsCauseError(s1, n)
     if key == 'systemexit':
         return SystemExit(3)
     if key == 'group':
@@ -124,7 +140,7 @@ def _make(key, seed):
 
 CATALOGUE = ['builtin0', 'builtin1', 'builtin3', 'keyerror', 'oserror', 'oserror_fn', 'unicode', 'custom', 'initargs',
              'stateful', 'slots', 'dictstate', 'cause', 'context', 'systemexit', 'group', 'importerror',
-             'calledprocess', 'stopiteration']
+             'calledprocess', 'stopiteration', 'keepcause']
 
 _ATTRS = ('errno', 'strerror', 'filename', 'encoding', 'object', 'start', 'end', 'reason', 'code', 'detail', 'extra',
           'payload', 'name', 'path', 'msg', 'returncode', 'cmd', 'output', 'stderr', 'value', 'message', 'exceptions')
@@ -221,7 +237,7 @@ def _text_of(obj):
 def do_step(top, meta, name, k):
     """Apply one spec action (except the hops, which move the object) to the real object; returns the new top."""
     M = _re()
-    how = {'cause': 'cause', 'context': 'context'}.get(meta['key'], 'plain')
+    how = {'cause': 'cause', 'context': 'context', 'keepcause': 'cause'}.get(meta['key'], 'plain')
     meta['checks'] = []
     if name == 'Raise':
         first = top.__traceback__ is None and not M.is_remote_exception(top) and not meta['pos']
@@ -422,7 +438,7 @@ def replay(item, beh, child=None):
     if mode == 'lib':
         # Raise, Wrap, Hop done by the library: mpservice Process target raises, parent fetches Process.exception()
         from mpservice.multiprocessing import Process
-        how = {'cause': 'cause', 'context': 'context'}.get(key, 'plain')
+        how = {'cause': 'cause', 'context': 'context', 'keepcause': 'cause'}.get(key, 'plain')
         p = Process(target=lib_target, args=(key, seed, depth, how), name='verif-remoteexc-lib')
         _KEEP.append(p)
         p.start()
